@@ -93,6 +93,7 @@ func main() {
 	hmacChecks(r)
 	streamChecks(r)
 	ipv4Checks(r)
+	stabilityChecks(r)
 
 	info.mu.Lock()
 	if len(info.m) > 0 {
